@@ -15,10 +15,11 @@ import SonicSpec.Driver.Bind
 import SonicSpec.Driver.Enc
 import SonicSpec.Driver.Robust
 import SonicSpec.Driver.Ir
+import SonicSpec.Driver.Dir
 namespace SonicSpec.Driver
 
 def handlers : List (List String → Option String) :=
-  [ Str.handle, Num.handle, Loader.handle, Own.handle, Mem.handle, IO.handle, Json.handle, Opts.handle, Conc.handle, Search.handle, RW.handle, Ast.handle, Bind.handle, Enc.handle, Robust.handle, Ir.handle ]
+  [ Str.handle, Num.handle, Loader.handle, Own.handle, Mem.handle, IO.handle, Json.handle, Opts.handle, Conc.handle, Search.handle, RW.handle, Ast.handle, Bind.handle, Enc.handle, Robust.handle, Ir.handle, Dir.handle ]
 
 /-- one protocol line in (already split at tabs), one result line out -/
 def dispatch (parts : List String) : String :=
